@@ -31,7 +31,8 @@ Decl(e, i) ==
     IF skipping THEN TRUE
     ELSE IF e.count # 1 THEN Report(i, "MISMATCH", "not exactly one exported declaration for a type assignment")
     ELSE IF e.kind = "ENUMERATED"
-         THEN IF e.decl_kind = "enum" /\ e.enum_values = e.enum_names /\ e.enum_names = <<"ea", "eb", "ec">> THEN TRUE
+         \* members named by the hyphen-mangled enumerals, valued by the original enumeral names
+         THEN IF e.decl_kind = "enum" /\ e.enum_values = e.src_names /\ e.enum_names = e.src_mangled THEN TRUE
               ELSE Report(i, "MISMATCH", "ENUMERATED: not an enum with string-valued members carrying the enumeral names")
     ELSE IF ~S!ClsOK(IF e.kind = "REF" THEN e.obs_cls ELSE e.kind, e.obs_cls)
          THEN Report(i, "MISMATCH", "declaration does not have the JER shape of the type")
